@@ -171,12 +171,7 @@ func corpusCheck(v cue.Value, pr profile, concrete bool, j0 []byte) (res, text s
 		body = body[1 : len(body)-1]
 	}
 	if _, perr := parser.ParseFile("printed.cue", body); perr != nil {
-		res = "PARSE"
-		fixed := strings.ReplaceAll(body, "<-", "< -")
-		if _, perr2 := parser.ParseFile("printed.cue", fixed); perr2 == nil && fixed != body {
-			res = "PARSE-F3"
-		}
-		return res, text
+		return "PARSE", text
 	}
 	ctx2 := cuecontext.New()
 	v2 := ctx2.CompileString(body, cue.Filename("printed.cue"))
